@@ -21,11 +21,11 @@ import (
 // ---- part (a): the simulator as an oracle ---------------------------------------------------------------
 
 type forgeCase struct {
-	Powers     []int64 `json:"honest_powers"`
-	AdvPower   int64   `json:"adversary_power"`
-	Kind       string  `json:"kind"`    // valid, wrong-instance, wrong-phase, wrong-round, empty, wrong-base, bad-aggregate, subset
-	Signers    []int   `json:"signers"` // canonical indices into the instance power table
-	Disagree   bool    `json:"overwrite_honest_decision,omitempty"`
+	Powers   []int64 `json:"honest_powers"`
+	AdvPower int64   `json:"adversary_power"`
+	Kind     string  `json:"kind"`    // valid, wrong-instance, wrong-phase, wrong-round, empty, wrong-base, bad-aggregate, subset
+	Signers  []int   `json:"signers"` // canonical indices into the instance power table
+	Disagree bool    `json:"overwrite_honest_decision,omitempty"`
 }
 
 // forger is a sim adversary that never votes; at start it reports one forged decision through the host
@@ -103,7 +103,7 @@ func (f *forger) forge(instance uint64, kind string, signers []int, value *gpbft
 }
 
 func (f *forger) StartInstanceAt(instance uint64, _ time.Time) error {
-	if f.done || f.fc.Disagree {
+	if f.done || f.fc.Disagree || strings.HasPrefix(f.fc.Kind, "last-") {
 		return nil
 	}
 	f.done = true
@@ -132,6 +132,53 @@ func (f *forger) StartInstanceAt(instance uint64, _ time.Time) error {
 	return nil
 }
 
+// AllowMessage is the adversary's per-delivery hook. For the "last-…" kinds the forger watches instance 0 and, as
+// soon as exactly one honest participant is still undecided, reports a forged decision (for the value the others
+// decided, so that nothing but the proof is wrong) in that participant's name: the forged decision is the one
+// that completes the instance.
+func (f *forger) AllowMessage(_ gpbft.ActorID, _ gpbft.ActorID, _ gpbft.GMessage) bool {
+	if f.fc.Disagree {
+		_ = f.ReceiveMessage(bg, nil) // the overwrite of an honest decision is attempted at every delivery
+		return true
+	}
+	if !strings.HasPrefix(f.fc.Kind, "last-") || f.over {
+		return true
+	}
+	s := *f.simRef
+	inst := s.GetInstance(0)
+	if inst == nil {
+		return true
+	}
+	var undecided []gpbft.ActorID
+	var value *gpbft.ECChain
+	for _, id := range s.ListParticipantIDs() {
+		if id == f.id {
+			continue
+		}
+		if d := inst.GetDecision(id); d == nil {
+			undecided = append(undecided, id)
+		} else {
+			value = d
+		}
+	}
+	if len(undecided) != 1 || value == nil {
+		return true
+	}
+	f.over = true
+	kind, signers := "bad-aggregate", f.fc.Signers
+	if f.fc.Kind == "last-underpowered" {
+		kind, signers = "subset", f.fc.Signers[:1]
+	}
+	j, valid := f.forge(0, kind, signers, value)
+	if valid {
+		panic("forged decision unexpectedly valid")
+	}
+	inst.NotifyDecision(undecided[0], j)
+	*f.expected = true
+	*f.note = fmt.Sprintf("participant %d, the last one undecided, got a forged (%s) decision for %s reported in its name", undecided[0], kind, value)
+	return true
+}
+
 func (f *forger) ReceiveMessage(_ context.Context, _ gpbft.ValidatedMessage) error {
 	if !f.fc.Disagree || f.over {
 		return nil
@@ -141,9 +188,21 @@ func (f *forger) ReceiveMessage(_ context.Context, _ gpbft.ValidatedMessage) err
 	if inst == nil {
 		return nil
 	}
-	ids := s.ListParticipantIDs()
-	victim := ids[0]
-	if d := inst.GetDecision(victim); d != nil {
+	// the victim: an honest participant that has decided while another one has not (so the run goes on)
+	var victim gpbft.ActorID
+	var d *gpbft.ECChain
+	undecided := 0
+	for _, id := range s.ListParticipantIDs() {
+		if id == f.id {
+			continue
+		}
+		if dd := inst.GetDecision(id); dd == nil {
+			undecided++
+		} else if d == nil {
+			victim, d = id, dd
+		}
+	}
+	if d != nil && undecided > 0 {
 		// overwrite the victim's recorded decision by a different, fully valid (quorum-signed) decision
 		all := make([]int, len(inst.PowerTable.Entries))
 		for i := range all {
@@ -198,9 +257,9 @@ func runC19Sim(chk *vcommon.Check, thorough bool) {
 		powers []int64
 		adv    int64
 	}{
-		{[]int64{1, 1}, 1},          // 3 members equal
-		{[]int64{1, 1, 1}, 1},       // 4 members equal
-		{[]int64{4, 3, 2}, 3},       // weighted
+		{[]int64{1, 1}, 1},                      // 3 members equal
+		{[]int64{1, 1, 1}, 1},                   // 4 members equal
+		{[]int64{4, 3, 2}, 3},                   // weighted
 		{[]int64{1000000, 1000000, 1000000}, 1}, // adversary with zero scaled power
 	}
 	n := 0
@@ -211,7 +270,7 @@ func runC19Sim(chk *vcommon.Check, thorough bool) {
 		for i := range all {
 			all[i] = i
 		}
-		for _, k := range []string{"valid", "wrong-instance", "wrong-phase", "wrong-round", "empty", "wrong-base", "bad-aggregate", "valid-then-reuse-signature-other-value", "valid-then-reuse-signature-other-signers"} {
+		for _, k := range []string{"valid", "wrong-instance", "wrong-phase", "wrong-round", "empty", "wrong-base", "bad-aggregate", "valid-then-reuse-signature-other-value", "valid-then-reuse-signature-other-signers", "last-underpowered", "last-bad-aggregate"} {
 			cases = append(cases, forgeCase{Powers: tb.powers, AdvPower: tb.adv, Kind: k, Signers: all})
 		}
 		for mask := 1; mask < 1<<members; mask++ {
@@ -239,10 +298,12 @@ func runC19Sim(chk *vcommon.Check, thorough bool) {
 					fp = "sim-misses-honest-disagreement"
 				}
 				chk.Violation(fp, fmt.Sprintf("sim.Run returned nil although %s (case %+v) %s", describeForge(fc), fc, note), rep)
-			case !mustErr && err != nil && !fc.Disagree:
+			case !mustErr && err != nil && !fc.Disagree && !strings.HasPrefix(fc.Kind, "last-"):
 				chk.Violation("sim-rejects-valid-decision", fmt.Sprintf("sim.Run failed on a valid quorum-signed decision (case %+v): %v", fc, err), rep)
 			case fc.Disagree && !mustErr:
 				chk.Add("disagreement_not_injected", 1)
+			case strings.HasPrefix(fc.Kind, "last-") && !mustErr:
+				chk.Add("last_decision_not_injected", 1)
 			}
 		}
 		chk.Sample(cases[len(cases)-2])
@@ -302,44 +363,69 @@ func runC19CertChain(chk *vcommon.Check, thorough bool) {
 					panic(err)
 				}
 				rep := map[string]any{"kind": "c19-certchain", "case": cc}
-				crts, err := gen.Generate(bg, length)
-				if err != nil {
-					chk.Violation("certchain-generate-error", fmt.Sprintf("%+v: Generate: %v", cc, err), rep)
-					continue
-				}
 				boot := e.byKey[fmt.Sprintf("m/%d", m.BootstrapEpoch-m.EC.Finality)]
-				// the node: a cert store holding these certificates
-				store := env.newStoreFor(e, m)
-				storeOK := true
-				for _, c := range crts {
-					if err := store.Put(bg, c); err != nil {
-						storeOK = false
-						break
-					}
-				}
-				in := f3.VerifNewInputs(m, store, e, keys, clock.NewMock())
-				for i := init; i < init+length; i++ {
-					n++
-					got, err := gen.GetCommittee(bg, i)
+				// the same generator object is used for two chains in a row (the second differs: the generator's random
+				// proposal lengths move on): what it derives must follow the chain it is working on
+				for pass := 0; pass < 2 && chk.Violations() == 0; pass++ {
+					crts, err := gen.Generate(bg, length)
 					if err != nil {
-						continue // beyond what the generator can answer
-					}
-					var want *mts
-					if i < init+lb {
-						want = boot
-					} else {
-						want = e.byKey[string(crts[i-lb-init].ECChain.Head().Key)]
-					}
-					chk.Distinct(fmt.Sprintf("cc%d/%d/%d/%d", lb, init, seed, i))
-					if !got.PowerTable.Entries.Equal(vfix.Canon(want.table)) || !bytes.Equal(got.Beacon, want.beacon) {
-						chk.Violation("certchain-lookback-differs-from-node-rule", fmt.Sprintf("%+v: certchain committee for instance %d is not the table/beacon at the head finalized %d instances earlier (instance %d, head %s): beacon %q want %q", cc, i, lb, i-lb, want, got.Beacon, want.beacon), rep)
+						chk.Violation("certchain-generate-error", fmt.Sprintf("%+v: Generate (chain #%d of this generator): %v", cc, pass+1, err), rep)
 						break
 					}
-					if storeOK {
-						ng, nerr := in.GetCommittee(bg, i)
-						if nerr == nil && (!ng.PowerTable.Entries.Equal(got.PowerTable.Entries) || !bytes.Equal(ng.Beacon, got.Beacon)) {
-							chk.Violation("certchain-lookback-differs-from-node-rule", fmt.Sprintf("%+v: certchain and the node's consensus inputs derive different committees for instance %d over the same EC and certificates (beacon %q vs node %q)", cc, i, got.Beacon, ng.Beacon), rep)
+					ruleTable := func(i uint64) *mts {
+						if i < init+lb {
+							return boot
+						}
+						if k := i - lb - init; k < uint64(len(crts)) {
+							return e.byKey[string(crts[k].ECChain.Head().Key)]
+						}
+						return nil
+					}
+					// the node: a cert store holding these certificates
+					store := env.newStoreFor(e, m)
+					storeOK := true
+					for _, c := range crts {
+						if err := store.Put(bg, c); err != nil {
+							storeOK = false
 							break
+						}
+					}
+					in := f3.VerifNewInputs(m, store, e, keys, clock.NewMock())
+					for i := init; i < init+length; i++ {
+						n++
+						// what the certificate itself commits to: the committee of the next instance by the node rule
+						if nx := ruleTable(i + 1); nx != nil {
+							if c := crts[i-init]; c.SupplementalData.PowerTable != vfix.TableCID(vfix.Canon(nx.table)) {
+								chk.Violation("certchain-certificate-commits-to-wrong-committee", fmt.Sprintf("%+v (chain #%d of this generator): the certificate of instance %d does not commit to the table at the head finalized %d instances before instance %d", cc, pass+1, i, lb, i+1), rep)
+								break
+							}
+						}
+						got, err := gen.GetCommittee(bg, i)
+						if err != nil {
+							continue // beyond what the generator can answer
+						}
+						want := ruleTable(i)
+						chk.Distinct(fmt.Sprintf("cc%d/%d/%d/%d/%d", lb, init, seed, pass, i))
+						if !got.PowerTable.Entries.Equal(vfix.Canon(want.table)) || !bytes.Equal(got.Beacon, want.beacon) {
+							chk.Violation("certchain-lookback-differs-from-node-rule", fmt.Sprintf("%+v (chain #%d of this generator): certchain committee for instance %d is not the table/beacon at the head finalized %d instances earlier (instance %d, head %s): beacon %q want %q", cc, pass+1, i, lb, i-lb, want, got.Beacon, want.beacon), rep)
+							break
+						}
+						if storeOK {
+							ng, nerr := in.GetCommittee(bg, i)
+							if nerr == nil && (!ng.PowerTable.Entries.Equal(got.PowerTable.Entries) || !bytes.Equal(ng.Beacon, got.Beacon)) {
+								chk.Violation("certchain-lookback-differs-from-node-rule", fmt.Sprintf("%+v: certchain and the node's consensus inputs derive different committees for instance %d over the same EC and certificates (beacon %q vs node %q)", cc, i, got.Beacon, ng.Beacon), rep)
+								break
+							}
+						}
+					}
+					// a fresh generator over the same EC and manifest must accept what this one generated
+					if chk.Violations() == 0 {
+						fresh, err := certchain.New(certchain.WithEC(e), certchain.WithManifest(m), certchain.WithSignVerifier(keys), certchain.WithSeed(seed+100))
+						if err != nil {
+							panic(err)
+						}
+						if err := fresh.Validate(bg, crts); err != nil {
+							chk.Violation("certchain-rejects-own-chain", fmt.Sprintf("%+v (chain #%d of this generator): a fresh generator's Validate rejects the generated chain: %v", cc, pass+1, err), rep)
 						}
 					}
 				}
